@@ -153,6 +153,35 @@ var skeletonFuncs = [][3]string{
 	{"fuse/lock_node.go", "LockHandle", "unlockHalt"},
 	{"fuse/lock_node.go", "LockHandle", "Flush"},
 	{"fuse/lock_node.go", "LockHandle", "QueryLock"},
+	// fifth mutant round: replica stream client, expiry, backup loop, start-up, remaining mount handlers
+	{"http/client.go", "Client", "Stream"},
+	{"fuse/pos_node.go", "PosNode", "Read"},
+	{"http/client.go", "Client", "AcquireHaltLock"},
+	{"http/client.go", "Client", "ReleaseHaltLock"},
+	{"http/client.go", "Client", "Commit"},
+	{"store.go", "Store", "EnforceHaltLockExpiration"},
+	{"db.go", "DB", "EnforceHaltLockExpiration"},
+	{"store.go", "Store", "monitorPrimaryBackup"},
+	{"store.go", "Store", "SyncBackup"},
+	{"store.go", "Store", "openDatabases"},
+	{"store.go", "Store", "openDatabase"},
+	{"fuse/root_node.go", "RootNode", "createDatabase"},
+	{"fuse/root_node.go", "RootNode", "lookupDBNode"},
+	{"fuse/shm_node.go", "SHMHandle", "Flush"},
+	{"fuse/root_node.go", "RootNode", "createWAL"},
+	{"fuse/root_node.go", "RootNode", "createSHM"},
+	{"fuse/wal_node.go", "WALNode", "Setattr"},
+	{"fuse/wal_node.go", "WALNode", "Open"},
+	{"fuse/shm_node.go", "SHMNode", "Open"},
+	{"fuse/root_node.go", "RootNode", "createJournal"},
+	{"fuse/journal_node.go", "JournalNode", "Open"},
+	{"fuse/database_node.go", "DatabaseHandle", "Flush"},
+	{"fuse/database_node.go", "DatabaseHandle", "Lock"},
+	{"fuse/database_node.go", "DatabaseHandle", "Unlock"},
+	{"fuse/database_node.go", "DatabaseHandle", "QueryLock"},
+	{"fuse/shm_node.go", "SHMHandle", "Lock"},
+	{"fuse/shm_node.go", "SHMHandle", "Unlock"},
+	{"fuse/shm_node.go", "SHMHandle", "QueryLock"},
 }
 
 // genSkeletons renders, for each listed function, its control skeleton in source order:
